@@ -1,7 +1,7 @@
 (* Lemmas for C13: the counting / enumeration / length / sampling models agree with
    the language of the DFA. *)
 From Coq Require Import List Arith NArith Bool Lia Sorted Permutation.
-From AV Require Import Base.Util Base.Closure Spec.Lang Spec.FA Spec.Words Model.Count Proofs.FARun.
+From AV Require Import Base.Util Base.Closure Spec.Lang Spec.FA Spec.Words Model.Count Proofs.FARun Proofs.Pump.
 Import ListNotations.
 
 (* ---------- generic list facts ---------- *)
@@ -38,6 +38,12 @@ Section ListFacts.
   Proof.
     induction l as [|x l IH]; simpl; intro H; [reflexivity|].
     rewrite (H x (or_introl eq_refl)), IH; [reflexivity|]. intros a Ha. apply H. right. exact Ha.
+  Qed.
+
+  Lemma flat_map_nil (g : A -> list B) l : (forall a, In a l -> g a = []) -> flat_map g l = [].
+  Proof.
+    induction l as [|x l IH]; simpl; intro H; [reflexivity|].
+    rewrite (H x (or_introl eq_refl)). simpl. apply IH. intros a Ha. apply H. right. exact Ha.
   Qed.
 
   Lemma length_flat_map_N (g : A -> list B) l :
@@ -618,3 +624,182 @@ Section MaxLen.
       unfold lp_post in H. fold q0. destruct (lp_go m (length (d_states m)) [q0] 0) as [[n|]|e]; [exact H|exact H|destruct H].
   Qed.
 End MaxLen.
+
+(* ---------- maximum length, cardinality, iteration ---------- *)
+Lemma ss_impl_in {A} (R R' : A -> A -> Prop) l :
+  StronglySorted R l -> (forall x y, In x l -> In y l -> R x y -> R' x y) -> StronglySorted R' l.
+Proof.
+  induction l as [|a l IH]; intros H HR; [constructor|].
+  apply StronglySorted_inv in H. destruct H as [H Ha]. constructor.
+  - apply IH; [exact H|]. intros x y Hx Hy. apply HR; right; assumption.
+  - apply Forall_forall. intros y Hy. rewrite Forall_forall in Ha.
+    apply HR; [left; reflexivity|right; exact Hy|apply Ha; exact Hy].
+Qed.
+
+Section Card.
+  Variable m : dfa.
+  Hypothesis Hv : valid_dfa m = true.
+  Let q0 := d_init m.
+
+  Definition infinite_lang : Prop := forall n, exists w, dfa_acc m w = true /\ n < length w.
+
+  Theorem max_len_spec :
+    match max_len m with
+    | Ok (Some n) => (exists w, length w = n /\ dfa_acc m w = true) /\ (forall w, dfa_acc m w = true -> length w <= n)
+    | Ok None => infinite_lang
+    | Err Empty => forall w, dfa_acc m w = false
+    | Err _ => False
+    end.
+  Proof.
+    pose proof (max_len_pre m Hv) as H. destruct (max_len m) as [[n|]|e]; try exact H.
+    destruct H as [w [Ha Hl]]. exact (pump_infinite m Hv w Ha Hl).
+  Qed.
+
+  (* the accepted words of length < L, by length then lexicographically *)
+  Definition level (k : nat) : list word := filter (dfa_acc m) (all_words (ssyms m) k).
+  Definition words_below (L : nat) : list word := flat_map level (seq 0 L).
+
+  Lemma level_wl k : level k = wl m k q0.
+  Proof. symmetry. exact (wl_from m Hv k q0). Qed.
+
+  Lemma level_In k w : In w (level k) <-> length w = k /\ dfa_acc m w = true.
+  Proof. exact (oacc_words_In' m Hv k q0 w). Qed.
+
+  Lemma words_below_In L w : In w (words_below L) <-> dfa_acc m w = true /\ length w < L.
+  Proof.
+    unfold words_below. rewrite in_flat_map. split.
+    - intros [k [Hk Hw]]. apply in_seq in Hk. apply level_In in Hw. destruct Hw as [<- Ha]. split; [exact Ha|lia].
+    - intros [Ha Hl]. exists (length w). split; [apply in_seq; lia|]. apply level_In. tauto.
+  Qed.
+
+  Lemma words_below_sorted L : StronglySorted ll_lt (words_below L).
+  Proof.
+    unfold words_below. induction L as [|L IH]; [constructor|].
+    rewrite seq_S, flat_map_app. simpl. rewrite app_nil_r. apply ss_app.
+    - exact IH.
+    - apply (ss_impl_in lex_lt).
+      + unfold level. apply ss_filter. apply all_words_sorted. apply set_of_sorted.
+      + intros x y Hx Hy Hlt. right. apply level_In in Hx. apply level_In in Hy. split; [lia|exact Hlt].
+    - intros x y Hx Hy. left. apply (words_below_In L) in Hx. apply level_In in Hy. lia.
+  Qed.
+
+  Lemma words_below_NoDup L : NoDup (words_below L).
+  Proof. eapply ss_NoDup; [exact ll_lt_irrefl|apply words_below_sorted]. Qed.
+
+  Lemma level_count k : cnt m k q0 = N.of_nat (length (level k)).
+  Proof. exact (cnt_from m Hv k q0). Qed.
+
+  Lemma Nsum_levels start len :
+    Nsum (map (fun j => cnt m j q0) (seq start len)) = N.of_nat (length (flat_map level (seq start len))).
+  Proof.
+    rewrite length_flat_map_N. f_equal. apply map_ext. intro j. apply level_count.
+  Qed.
+
+  Lemma level_nil_below lo k : (forall w, dfa_acc m w = true -> lo <= length w) -> k < lo -> level k = [].
+  Proof.
+    intros Hmin Hk. destruct (level k) as [|w l] eqn:E; [reflexivity|].
+    assert (Hin : In w (level k)) by (rewrite E; left; reflexivity).
+    apply level_In in Hin. destruct Hin as [Hl Ha]. specialize (Hmin w Ha). lia.
+  Qed.
+
+  Lemma levels_from lo len : (forall w, dfa_acc m w = true -> lo <= length w) ->
+    flat_map level (seq lo len) = words_below (lo + len).
+  Proof.
+    intro Hmin. unfold words_below. rewrite seq_app, flat_map_app. simpl.
+    assert (E : flat_map level (seq 0 lo) = []).
+    { apply flat_map_nil. intros k Hk. apply in_seq in Hk. apply (level_nil_below lo); [exact Hmin|lia]. }
+    rewrite E. reflexivity.
+  Qed.
+
+  (* cardinality: the number of accepted words (all of them shorter than some bound);
+     InfiniteLanguageException exactly for an infinite language; 0 for the empty one *)
+  Theorem cardinality_spec :
+    match cardinality m with
+    | Ok c => exists L, (forall w, dfa_acc m w = true -> length w < L) /\ c = N.of_nat (length (words_below L))
+    | Err Infinite => infinite_lang
+    | Err _ => False
+    end.
+  Proof.
+    unfold cardinality. pose proof (min_len_spec m Hv) as Hmin. unfold min_len_post in Hmin.
+    pose proof max_len_spec as Hmax.
+    destruct (min_len m) as [lo|e].
+    - destruct Hmin as [[w0 [Hl0 Ha0]] Hmin]. destruct (max_len m) as [[h|]|e]; cbn [bind].
+      + destruct Hmax as [_ Hmax]. exists (S h). split.
+        * intros w Ha. specialize (Hmax w Ha). lia.
+        * fold q0. rewrite Nsum_levels, (levels_from lo (S h - lo) Hmin).
+          specialize (Hmax w0 Ha0). replace (lo + (S h - lo)) with (S h) by lia. reflexivity.
+      + exact Hmax.
+      + destruct e; try contradiction. exfalso. rewrite (Hmax w0) in Ha0. discriminate.
+    - destruct e; try contradiction. exists 0. split.
+      + intros w Ha. rewrite (Hmin w) in Ha. discriminate.
+      + reflexivity.
+  Qed.
+
+  (* ---- iteration ---- *)
+  Definition lvl_from (k f : nat) : list word := flat_map (fun j => wl m j q0) (seq k f).
+
+  Lemma bind_id {A} (r : res A) : bind r (fun s => Ok s) = r.
+  Proof. destruct r; reflexivity. Qed.
+
+  Lemma iter_go_eq stop fuel : forall k need,
+    iter_go m fuel k need stop =
+      if Nat.leb need (length (lvl_from k fuel)) then Ok (firstn need (lvl_from k fuel))
+      else bind stop (fun s => Ok (lvl_from k fuel ++ s)).
+  Proof.
+    induction fuel as [|f IH]; intros k need.
+    - destruct need as [|nd]; simpl; [reflexivity|]. symmetry. apply bind_id.
+    - destruct need as [|nd]; [reflexivity|].
+      assert (El : lvl_from k (S f) = wl m k q0 ++ lvl_from (S k) f) by reflexivity.
+      rewrite El. clear El.
+      change (iter_go m (S f) k (S nd) stop) with
+        (if Nat.leb (S nd) (length (wl m k q0)) then Ok (firstn (S nd) (wl m k q0))
+         else bind (iter_go m f (S k) (S nd - length (wl m k q0)) stop) (fun r => Ok (wl m k q0 ++ r))).
+      set (ws := wl m k q0). set (rest := lvl_from (S k) f). rewrite app_length.
+      destruct (Nat.leb (S nd) (length ws)) eqn:E1.
+      + apply Nat.leb_le in E1. assert (E2 : Nat.leb (S nd) (length ws + length rest) = true) by (apply Nat.leb_le; lia).
+        rewrite E2. rewrite firstn_app. replace (S nd - length ws) with 0 by lia. rewrite firstn_O, app_nil_r. reflexivity.
+      + apply Nat.leb_gt in E1. rewrite IH. fold rest.
+        destruct (Nat.leb (S nd - length ws) (length rest)) eqn:E3.
+        * apply Nat.leb_le in E3. assert (E2 : Nat.leb (S nd) (length ws + length rest) = true) by (apply Nat.leb_le; lia).
+          rewrite E2. simpl bind. rewrite firstn_app. rewrite (firstn_all2 ws) by lia. reflexivity.
+        * apply Nat.leb_gt in E3. assert (E2 : Nat.leb (S nd) (length ws + length rest) = false) by (apply Nat.leb_gt; lia).
+          rewrite E2. destruct stop as [s|e]; simpl; [rewrite app_assoc; reflexivity|reflexivity].
+  Qed.
+
+  Lemma lvl_from_level k f : lvl_from k f = flat_map level (seq k f).
+  Proof. unfold lvl_from. apply flat_map_ext. intro j. symmetry. apply level_wl. Qed.
+
+  (* iteration: the first n words of the (length, lexicographic) listing of the language; either n
+     words were produced or the whole (finite) language was; an empty language yields nothing.
+     Running out of fuel can only be reported for an infinite language. *)
+  Theorem iter_upto_spec n :
+    match iter_upto m n with
+    | Ok ws => exists L, ws = firstn n (words_below L) /\
+                         (length ws = n \/ (forall w, dfa_acc m w = true -> In w ws))
+    | Err e => e = Fuel /\ infinite_lang
+    end.
+  Proof.
+    unfold iter_upto. destruct (isempty_spec m Hv) as [b [Ee Hb]]. rewrite Ee. cbn [bind]. destruct b.
+    - exists 0. split; [destruct n; reflexivity|]. right. intros w Ha.
+      destruct Hb as [Hb _]. rewrite (Hb eq_refl w) in Ha. discriminate.
+    - pose proof (min_len_spec m Hv) as Hmin. unfold min_len_post in Hmin. pose proof max_len_spec as Hmax.
+      assert (Hne : ~ (forall w, dfa_acc m w = false)) by (intro H; apply Hb in H; discriminate).
+      destruct (min_len m) as [lo|e]; [|destruct e; contradiction]. cbn [bind].
+      destruct Hmin as [[w0 [Hl0 Ha0]] Hmin].
+      destruct (max_len m) as [[h|]|e]; cbn [bind].
+      + destruct Hmax as [_ Hmax]. rewrite iter_go_eq. fold q0.
+        rewrite lvl_from_level, (levels_from lo (S h - lo) Hmin).
+        pose proof (Hmax w0 Ha0) as Hlo. replace (lo + (S h - lo)) with (S h) by lia.
+        destruct (Nat.leb n (length (words_below (S h)))) eqn:E.
+        * exists (S h). split; [reflexivity|]. left. apply firstn_length_le. apply Nat.leb_le. exact E.
+        * cbn [bind]. exists (S h). rewrite app_nil_r. apply Nat.leb_gt in E. split.
+          -- symmetry. apply firstn_all2. lia.
+          -- right. intros w Ha. apply words_below_In. split; [exact Ha|]. specialize (Hmax w Ha). lia.
+      + rewrite iter_go_eq. fold q0. rewrite lvl_from_level, (levels_from lo _ Hmin).
+        set (L := lo + n * S (length (d_states m))).
+        destruct (Nat.leb n (length (words_below L))) eqn:E.
+        * exists L. split; [reflexivity|]. left. apply firstn_length_le. apply Nat.leb_le. exact E.
+        * cbn [bind]. split; [reflexivity|exact Hmax].
+      + destruct e; contradiction.
+  Qed.
+End Card.
